@@ -11,34 +11,34 @@ Require Import XV.XpAst XV.GenXpc XV.XpcLexDefs XV.XpcParseDefs XV.XpcPrintDefs 
 
 (* ---- totality -------------------------------------------------------------------------------------------- *)
 (* the parser's fuel (number of tokens + 1) is never exhausted, whatever the token queue *)
-Theorem parse_fuel_sufficient : forall ns ts, parse ns ts <> Fuel.
+Theorem parse_fuel_sufficient : forall fl ns ts, parse fl ns ts <> Fuel.
 Proof. exact parse_fuel_sufficient_m. Qed.
 Print Assumptions parse_fuel_sufficient.
 
 (* tokenizer (one character per step, structural) + parser: every string is compiled or refused *)
-Theorem compile_total : forall ns s, compile ns s <> Fuel.
+Theorem compile_total : forall fl ns s, compile fl ns s <> Fuel.
 Proof. exact compile_total_m. Qed.
 Print Assumptions compile_total.
 
 (* no function of the parser lengthens the queue *)
-Theorem expr_never_lengthens_queue : forall ns n d ts e r, p_expr ns n d ts = Ok (e, r) -> length r <= length ts.
-Proof. intros ns n d ts e r H. exact (proj1 (p_expr_both ns n d ts) e r H). Qed.
+Theorem expr_never_lengthens_queue : forall fl ns n d ts e r, p_expr fl ns n d ts = Ok (e, r) -> length r <= length ts.
+Proof. intros fl ns n d ts e r H. exact (proj1 (p_expr_both fl ns n d ts) e r H). Qed.
 Print Assumptions expr_never_lengthens_queue.
 
 (* ---- precedence and associativity: the round trip ---------------------------------------------------------- *)
-(* for EVERY canonical tree within the nesting limit, compiling its printed tokens gives the tree back: operands of
+(* in every variant fl of the three repairs (fixes/C02c): for EVERY canonical tree within the nesting limit, compiling its printed tokens gives the tree back: operands of
    = != < <= > >= + - * div mod nest to the LEFT, of or / and to the RIGHT (as the code compiles them), '|' is n-ary,
    unary minus binds tighter than every binary operator and looser than '|', predicates / steps / filter heads /
    function arguments are attached where the grammar puts them *)
-Theorem parse_print : forall ns e, canon e = true -> S (idepth e) <= gen_xpc_max_nesting -> parse ns (pr e) = Ok e.
+Theorem parse_print : forall fl ns e, canon e = true -> S (idepth e) <= gen_xpc_max_nesting -> parse fl ns (pr e) = Ok e.
 Proof. exact parse_print_m. Qed.
 Print Assumptions parse_print.
 
 (* the same inside a larger queue: Expr() stops exactly at the closing token *)
-Theorem expr_print_stops_at_follow : forall ns e n d rest, canon e = true ->
+Theorem expr_print_stops_at_follow : forall fl ns e n d rest, canon e = true ->
   length (pr e ++ rest) < n -> S d + idepth e <= gen_xpc_max_nesting -> follow rest = true ->
-  p_expr ns n d (pr e ++ rest) = Ok (e, rest).
-Proof. intros ns e n d rest Hc. exact (p_expr_rt ns (S (expr_size e)) e (Nat.lt_succ_diag_r _) Hc n d rest). Qed.
+  p_expr fl ns n d (pr e ++ rest) = Ok (e, rest).
+Proof. intros fl ns e n d rest Hc. exact (p_expr_rt fl ns (S (expr_size e)) e (Nat.lt_succ_diag_r _) Hc n d rest). Qed.
 Print Assumptions expr_print_stops_at_follow.
 
 (* unambiguity: two different canonical trees never have the same tokens *)
@@ -51,6 +51,7 @@ Print Assumptions print_injective.
 Local Open Scope N_scope.
 Definition num (c : N) : expr := ENumLit [c].
 Definition nm (c : N) : expr := EPath None [] [(AxChild, TName NsEmpty (Some [c]), [])].
+Definition nm_s (s : str) : expr := EPath None [] [(AxChild, TName NsEmpty (Some s), [])].
 (* 1 - 2 - 3  is canonical as (1 - 2) - 3 ... *)
 Example canon_left_nested : canon (EMinus (EMinus (num 49) (num 50)) (num 51)) = true.
 Proof. vm_compute. reflexivity. Qed.
@@ -74,10 +75,10 @@ Example canon_filter_path :
 Proof. vm_compute. reflexivity. Qed.
 (* the tokens of "1 - 2 - 3" really compile to the left-nested tree (a test of the model, not a theorem) *)
 Example compile_1_minus_2_minus_3 :
-  compile (fun _ => None) [49; 32; 45; 32; 50; 32; 45; 32; 51] = Ok (EMinus (EMinus (num 49) (num 50)) (num 51)).
+  compile_here (fun _ => None) [49; 32; 45; 32; 50; 32; 45; 32; 51] = Ok (EMinus (EMinus (num 49) (num 50)) (num 51)).
 Proof. vm_compute. reflexivity. Qed.
 (* "/ * 2" is the path /child::* followed by a stray token (3.7), not a product: hence ends_root in canon *)
-Example root_star : compile (fun _ => None) [47; 32; 42; 32; 50] = Err /\ canon (EMult (EPath None [] [(AxRoot, TRoot, [])]) (num 50)) = false.
+Example root_star : compile_here (fun _ => None) [47; 32; 42; 32; 50] = Err /\ canon (EMult (EPath None [] [(AxRoot, TRoot, [])]) (num 50)) = false.
 Proof. vm_compute. split; reflexivity. Qed.
 (* the nesting limit is the one of the source *)
 Example nesting_limit : gen_xpc_max_nesting = 1024%nat.
@@ -100,27 +101,83 @@ Theorem keyword_tables_are_the_recommendations :
 Proof. vm_compute. repeat split; reflexivity. Qed.
 Print Assumptions keyword_tables_are_the_recommendations.
 
-(* ---- what the compiler does NOT check (findings; the model is faithful) -------------------------------------- *)
-(* "Strings that are not XPath expressions are rejected": an unprefixed name test is only tested on its first
-   character (isNodeTest): a#b compiles as the name test 'a#b' *)
-Theorem name_test_is_ncname_refuted :
-  exists s n, compile (fun _ => None) s = Ok (EPath None [] [(AxChild, TName NsEmpty (Some n), [])]) /\ valid_ncname n = false.
-Proof. exists [97; 35; 98], [97; 35; 98]. vm_compute. split; reflexivity. Qed.
-Print Assumptions name_test_is_ncname_refuted.
-(* the exact guard the code applies *)
-Theorem name_test_first_char_partial : forall ns ts q n r,
-  p_nodetest ns ts = Ok (TName q (Some n), r) -> is_nodetest_tok n = true.
-Proof. exact nodetest_name_guard_m. Qed.
+(* ---- the three repairs of fixes/C02c: repaired variant, unrepaired variant, this tree --------------------------------- *)
+(* Every definition of the model takes the variant fl (XpcLexDefs.flags); flags_here is what translator/gen_xpc.py
+   recognised in the source of this run (the three gen_xpc_fix flags), flags_before = no repair, flags_fixed = all three. *)
+
+(* (1) "Strings that are not XPath expressions are rejected": NodeTest() is the only producer of a name test; repaired,
+   an unprefixed name that it accepts is an NCName (the local part of a prefixed one is checked by mapNSTokens) *)
+Theorem name_test_is_ncname : forall fl ns ts q n r, fx_name fl = true ->
+  p_nodetest fl ns ts = Ok (TName q (Some n), r) -> valid_ncname n = true.
+Proof. intros fl ns ts q n r F H. exact (proj2 (nodetest_name_guard_m fl ns ts q n r H) F). Qed.
+Print Assumptions name_test_is_ncname.
+(* unrepaired, only the first character is tested (isNodeTest) ... *)
+Theorem name_test_first_char_partial : forall fl ns ts q n r,
+  p_nodetest fl ns ts = Ok (TName q (Some n), r) -> is_nodetest_tok n = true.
+Proof. intros fl ns ts q n r H. exact (proj1 (nodetest_name_guard_m fl ns ts q n r H)). Qed.
 Print Assumptions name_test_first_char_partial.
-
-(* a '.' that is not followed by a digit starts a NAME token: ".div 2" / "..-1" are refused although ". div 2" compiles *)
-Theorem dot_before_operator_refuted :
-  compile (fun _ => None) [46; 100; 105; 118; 32; 50] = Err /\
-  compile (fun _ => None) [46; 32; 100; 105; 118; 32; 50] = Ok (EDiv (EPath None [] [(AxSelf, TNode, [])]) (num 50)).
-Proof. vm_compute. split; reflexivity. Qed.
-Print Assumptions dot_before_operator_refuted.
-
-(* Digit of the number scan is XalanXMLChar::isDigit: U+0661 compiles as a number literal (whose value is NaN) *)
-Theorem number_is_ascii_digits_refuted : compile (fun _ => None) [1633] = Ok (ENumLit [1633]).
+(* ... and a#b compiles as the name test 'a#b' *)
+Theorem name_test_is_ncname_before_fix_witness :
+  exists s n, compile flags_before (fun _ => None) s = Ok (EPath None [] [(AxChild, TName NsEmpty (Some n), [])]) /\ valid_ncname n = false.
+Proof. exists [97; 35; 98], [97; 35; 98]. vm_compute. split; reflexivity. Qed.
+Print Assumptions name_test_is_ncname_before_fix_witness.
+Theorem name_test_is_ncname_after_fix_example : compile flags_fixed (fun _ => None) [97; 35; 98] = Err.
 Proof. vm_compute. reflexivity. Qed.
-Print Assumptions number_is_ascii_digits_refuted.
+Theorem name_test_is_ncname_this_tree :
+  if fx_name flags_here
+  then forall ns ts q n r, p_nodetest flags_here ns ts = Ok (TName q (Some n), r) -> valid_ncname n = true
+  else exists s n, compile_here (fun _ => None) s = Ok (EPath None [] [(AxChild, TName NsEmpty (Some n), [])]) /\ valid_ncname n = false.
+Proof.
+  destruct (fx_name flags_here) eqn:E.
+  - intros ns ts q n r. exact (name_test_is_ncname flags_here ns ts q n r E).
+  - first [ vm_compute in E; discriminate E | exists [97; 35; 98], [97; 35; 98]; vm_compute; split; reflexivity ].
+Qed.
+Print Assumptions name_test_is_ncname_this_tree.
+
+(* (2) repaired tokenizer: outside a name, a '.' that is not followed by a digit or another '.' is pushed as the token "."
+   WHATEVER follows (an operator name, '-', a letter), and '..' as the token ".." *)
+Theorem dot_before_operator_compiles : forall fl ns s prev acc, fx_dot fl = true ->
+  match s with [] => True | c :: _ => num_digit fl c = false /\ c <> ch_fullstop end ->
+  lex fl ns (ch_fullstop :: s) prev acc MIdle = lex fl ns s (ch_fullstop :: prev) ([ch_fullstop] :: acc) MIdle.
+Proof. exact dot_token_m. Qed.
+Print Assumptions dot_before_operator_compiles.
+Theorem dotdot_is_a_token : forall fl ns s prev acc, fx_dot fl = true ->
+  lex fl ns (ch_fullstop :: ch_fullstop :: s) prev acc MIdle =
+  lex fl ns s (ch_fullstop :: ch_fullstop :: prev) ([ch_fullstop; ch_fullstop] :: acc) MIdle.
+Proof. exact dotdot_token_m. Qed.
+Print Assumptions dotdot_is_a_token.
+(* ".div 2" = ". div 2", "..-1" = ".. - 1"; names and numbers keep their dots *)
+Theorem dot_before_operator_after_fix_examples :
+  compile flags_fixed (fun _ => None) [46; 100; 105; 118; 32; 50] = compile flags_fixed (fun _ => None) [46; 32; 100; 105; 118; 32; 50] /\
+  compile flags_fixed (fun _ => None) [46; 100; 105; 118; 32; 50] = Ok (EDiv (EPath None [] [(AxSelf, TNode, [])]) (num 50)) /\
+  compile flags_fixed (fun _ => None) [46; 46; 45; 49] = Ok (EMinus (EPath None [] [(AxParent, TNode, [])]) (num 49)) /\
+  compile flags_fixed (fun _ => None) [97; 46; 45; 53] = Ok (nm_s [97; 46; 45; 53]) /\
+  tokenize flags_fixed (fun _ => None) [46; 53; 32; 53; 46; 32; 97; 46; 98] = Ok [[46; 53]; [53; 46]; [97; 46; 98]].
+Proof. vm_compute. repeat split; reflexivity. Qed.
+Theorem dot_before_operator_before_fix_witness :
+  compile flags_before (fun _ => None) [46; 100; 105; 118; 32; 50] = Err /\
+  compile flags_before (fun _ => None) [46; 32; 100; 105; 118; 32; 50] = Ok (EDiv (EPath None [] [(AxSelf, TNode, [])]) (num 50)).
+Proof. vm_compute. split; reflexivity. Qed.
+Print Assumptions dot_before_operator_before_fix_witness.
+Theorem dot_before_operator_this_tree :
+  if fx_dot flags_here
+  then compile_here (fun _ => None) [46; 100; 105; 118; 32; 50] = Ok (EDiv (EPath None [] [(AxSelf, TNode, [])]) (num 50))
+  else compile_here (fun _ => None) [46; 100; 105; 118; 32; 50] = Err.
+Proof. vm_compute. reflexivity. Qed.
+Print Assumptions dot_before_operator_this_tree.
+
+(* (3) repaired number test: PrimaryExpr() takes a token for a number only if it starts with '0'..'9' or '.' '0'..'9' *)
+Theorem number_is_ascii_digits : forall fl ts, fx_digit fl = true -> primary_kind fl ts = PkNumber -> num_tok_ok (cur_tok ts) = true.
+Proof. exact number_ascii_m. Qed.
+Print Assumptions number_is_ascii_digits.
+Theorem number_is_ascii_digits_after_fix_examples :
+  compile flags_fixed (fun _ => None) [1633] = Err /\ compile flags_fixed (fun _ => None) [49; 1633] = Err /\
+  compile flags_fixed (fun _ => None) [46; 1633] = Err /\ compile flags_fixed (fun _ => None) [97; 1633] = Ok (nm_s [97; 1633]).
+Proof. vm_compute. repeat split; reflexivity. Qed.
+Theorem number_is_ascii_digits_before_fix_witness : compile flags_before (fun _ => None) [1633] = Ok (ENumLit [1633]).
+Proof. vm_compute. reflexivity. Qed.
+Print Assumptions number_is_ascii_digits_before_fix_witness.
+Theorem number_is_ascii_digits_this_tree :
+  if fx_digit flags_here then compile_here (fun _ => None) [1633] = Err else compile_here (fun _ => None) [1633] = Ok (ENumLit [1633]).
+Proof. vm_compute. reflexivity. Qed.
+Print Assumptions number_is_ascii_digits_this_tree.
